@@ -1648,4 +1648,743 @@ theorem tuple_kept_counterexample :
 
 end examples
 
+/-! ## 5. line wrapping and truncation are marked
+
+`unwrap` removes the continuation markers from a result list: every `LINEWRAP` item together with
+the `NEWLINE` that follows it.  What remains are the characters the colourizer handed to `_output`. -/
+
+def Item.raw : Item → List Char
+  | .text s => s
+  | .elem _ s => s
+  | .wbr => []
+  | .newline => ['\n']
+
+/-- `skip`: the previous item was a `LINEWRAP` -/
+def unwrapAux : Bool → List Item → List Char
+  | _, [] => []
+  | _, .elem .linewrap _ :: rest => unwrapAux true rest
+  | true, .newline :: rest => unwrapAux false rest
+  | false, .newline :: rest => '\n' :: unwrapAux false rest
+  | _, it :: rest => it.raw ++ unwrapAux false rest
+
+def unwrap (l : List Item) : List Char := unwrapAux false l
+
+def pendingAux : Bool → List Item → Bool
+  | b, [] => b
+  | _, .elem .linewrap _ :: rest => pendingAux true rest
+  | _, _ :: rest => pendingAux false rest
+
+def pending (l : List Item) : Bool := pendingAux false l
+
+theorem unwrapAux_append (b : Bool) (l m : List Item) :
+    unwrapAux b (l ++ m) = unwrapAux b l ++ unwrapAux (pendingAux b l) m := by
+  induction l generalizing b with
+  | nil => simp [unwrapAux, pendingAux]
+  | cons it rest ih =>
+    cases it with
+    | text s => cases b <;> simp [unwrapAux, pendingAux, ih]
+    | wbr => cases b <;> simp [unwrapAux, pendingAux, ih]
+    | newline => cases b <;> simp [unwrapAux, pendingAux, ih]
+    | elem k s => cases k <;> cases b <;> simp [unwrapAux, pendingAux, ih]
+
+theorem pendingAux_append (b : Bool) (l m : List Item) :
+    pendingAux b (l ++ m) = pendingAux (pendingAux b l) m := by
+  induction l generalizing b with
+  | nil => simp [pendingAux]
+  | cons it rest ih =>
+    cases it with
+    | text s => simp [pendingAux, ih]
+    | wbr => simp [pendingAux, ih]
+    | newline => simp [pendingAux, ih]
+    | elem k s => cases k <;> simp [pendingAux, ih]
+
+theorem unwrap_append (l m : List Item) : unwrap (l ++ m) = unwrap l ++ unwrapAux (pending l) m :=
+  unwrapAux_append false l m
+theorem pending_append (l m : List Item) : pending (l ++ m) = pendingAux (pending l) m :=
+  pendingAux_append false l m
+
+theorem unwrapAux_mkElem (b : Bool) (k : OKind) (s : List Char) (rest : List Item) :
+    unwrapAux b (mkElem k s :: rest) = s ++ unwrapAux false rest := by
+  cases k <;> cases b <;> simp [mkElem, unwrapAux, Item.raw]
+
+theorem pendingAux_mkElem (b : Bool) (k : OKind) (s : List Char) (rest : List Item) :
+    pendingAux b (mkElem k s :: rest) = pendingAux false rest := by
+  cases k <;> simp [mkElem, pendingAux]
+
+def segsText : Bool → Bool → List (List Char) → List Char
+  | _, _, [] => []
+  | first, p, s :: rest => (if first || p then [] else ['\n']) ++ s ++ segsText false false rest
+
+theorem pySplit_append (n cp : Nat) (seg : List Char) :
+    (pySplit n cp seg).1 ++ (pySplit n cp seg).2 = seg := by
+  unfold pySplit
+  split <;> simp
+
+def Extends (st st' : St) : Prop := ∃ m, st'.result = st.result ++ m
+
+theorem Extends.refl (st : St) : Extends st st := ⟨[], by simp⟩
+theorem Extends.trans {a b c : St} (h1 : Extends a b) (h2 : Extends b c) : Extends a c := by
+  obtain ⟨m1, e1⟩ := h1; obtain ⟨m2, e2⟩ := h2
+  exact ⟨m1 ++ m2, by rw [e2, e1, List.append_assoc]⟩
+
+/-- the new-line step: appends at most an (absorbed or real) newline -/
+theorem nlStep_spec (cfg : Cfg) (first : Bool) (st : St) (hp : pending st.result = true → first = false) :
+    match nlStep cfg first st with
+    | .ok st1 =>
+      unwrap st1.result = unwrap st.result ++ (if first || pending st.result then [] else ['\n']) ∧
+      pending st1.result = false ∧ Extends st st1 ∧ st1.lbok = st.lbok
+    | .error (_, st1) => st1 = st := by
+  unfold nlStep
+  cases first with
+  | true =>
+    have : pending st.result = false := by
+      cases h : pending st.result with
+      | false => rfl
+      | true => exact absurd (hp h) (by simp)
+    simp [this, Extends.refl]
+  | false =>
+    simp only [Bool.false_eq_true, if_false]
+    by_cases h1 : exceeds (st.lineno + 1) cfg.maxlines = true
+    · simp [h1]
+    by_cases h2 : (!st.lbok) = true
+    · simp [h1, h2]
+    · simp only [h1, h2, if_false]
+      refine ⟨?_, ?_, ⟨[.newline], rfl⟩, rfl⟩
+      · rw [unwrap_append]
+        cases pending st.result <;> simp [unwrapAux]
+      · rw [pending_append]
+        cases pending st.result <;> simp [pendingAux]
+
+theorem pushSeg_spec (k : OKind) (seg : List Char) (st : St) (hp : pending st.result = false) :
+    unwrap (pushSeg k seg st).result = unwrap st.result ++ seg ∧
+    pending (pushSeg k seg st).result = false ∧ Extends st (pushSeg k seg st) ∧
+    (pushSeg k seg st).lbok = st.lbok := by
+  refine ⟨?_, ?_, ⟨[mkElem k seg], rfl⟩, rfl⟩
+  · simp [pushSeg, unwrap_append, hp, unwrapAux_mkElem, unwrapAux]
+  · simp [pushSeg, pending_append, hp, pendingAux_mkElem, pendingAux]
+
+theorem pushWrap_spec (k : OKind) (a : List Char) (st : St) (hp : pending st.result = false) :
+    unwrap (pushWrap k a st).result = unwrap st.result ++ a ∧
+    pending (pushWrap k a st).result = true ∧ Extends st (pushWrap k a st) ∧
+    (pushWrap k a st).lbok = st.lbok := by
+  refine ⟨?_, ?_, ⟨[mkElem k a, linewrapItem], rfl⟩, rfl⟩
+  · simp [pushWrap, unwrap_append, hp, unwrapAux_mkElem, unwrapAux, linewrapItem]
+  · simp [pushWrap, pending_append, hp, pendingAux_mkElem, pendingAux, linewrapItem]
+
+
+/-- shape of the claim about a run of the wrapping loop started in `st0` whose text should be `txt` -/
+def SegClaim (st0 : St) (txt : List Char) (pend' : Bool) (r : Res) : Prop :=
+  match r with
+  | .ok st' =>
+    unwrap st'.result = unwrap st0.result ++ txt ∧ pending st'.result = pend' ∧
+    Extends st0 st' ∧ st'.lbok = st0.lbok
+  | .error (_, st') =>
+    Extends st0 st' ∧ st'.lbok = st0.lbok ∧ ∃ p, p <+: txt ∧ unwrap st'.result = unwrap st0.result ++ p
+
+/-- a claim about the rest of the loop (from `st2`, which already extends `st0` by `pre`) lifts to `st0` -/
+theorem SegClaim.lift {st0 st2 : St} {pre txt : List Char} {pd : Bool} {r : Res}
+    (hu : unwrap st2.result = unwrap st0.result ++ pre) (hext : Extends st0 st2) (hlb : st2.lbok = st0.lbok)
+    (h : SegClaim st2 txt pd r) : SegClaim st0 (pre ++ txt) pd r := by
+  unfold SegClaim at h ⊢
+  match r, h with
+  | .ok st', ⟨h1, h2, h3, h4⟩ =>
+    exact ⟨by rw [h1, hu, List.append_assoc], h2, hext.trans h3, h4.trans hlb⟩
+  | .error (e, st'), ⟨h1, h2, p, hp, h3⟩ =>
+    refine ⟨hext.trans h1, h2.trans hlb, pre ++ p, ?_, by rw [h3, hu, List.append_assoc]⟩
+    exact List.prefix_append_right_inj pre |>.2 hp
+
+theorem outSegs_spec (cfg : Cfg) (k : OKind) :
+    ∀ (fuel : Nat) (first : Bool) (segs : List (List Char)) (st : St),
+      (pending st.result = true → first = false) →
+      SegClaim st (segsText first (pending st.result) segs)
+        (if segs.isEmpty then pending st.result else false) (outSegs cfg k fuel first segs st)
+  | fuel, first, [], st, _ => by
+    cases fuel <;> simp [outSegs, SegClaim, segsText, Extends.refl]
+  | 0, first, seg :: rest, st, _ => by
+    simp only [outSegs]
+    unfold SegClaim
+    exact ⟨Extends.refl st, rfl, [], List.nil_prefix, by simp⟩
+  | fuel + 1, first, seg :: rest, st, hp => by
+    have hn := nlStep_spec cfg first st hp
+    simp only [outSegs]
+    cases hnl : nlStep cfg first st with
+    | error e =>
+      obtain ⟨e, st1⟩ := e
+      rw [hnl] at hn
+      simp only at hn
+      subst hn
+      unfold SegClaim
+      exact ⟨Extends.refl _, rfl, [], List.nil_prefix, by simp⟩
+    | ok st1 =>
+      rw [hnl] at hn
+      obtain ⟨hu, hpd, hext, hlb⟩ := hn
+      simp only [List.isEmpty_cons, Bool.false_eq_true, if_false]
+      -- the segment fits
+      have fit : SegClaim st (segsText first (pending st.result) (seg :: rest)) false
+          (outSegs cfg k fuel false rest (pushSeg k seg st1)) := by
+        have ps := pushSeg_spec k seg st1 hpd
+        have ih := outSegs_spec cfg k fuel false rest (pushSeg k seg st1) (fun _ => rfl)
+        rw [ps.2.1] at ih
+        have := SegClaim.lift (st0 := st) (pre := (if first || pending st.result then [] else ['\n']) ++ seg)
+          (by rw [ps.1, hu, List.append_assoc]) (hext.trans ps.2.2.1) (ps.2.2.2.trans hlb) ih
+        simpa [segsText, List.append_assoc] using this
+      cases hll : cfg.linelen with
+      | none => exact fit
+      | some n =>
+        simp only
+        split
+        · exact fit
+        · have pw := pushWrap_spec k (pySplit n st1.charpos seg).1 st1 hpd
+          have ih := outSegs_spec cfg k fuel false ((pySplit n st1.charpos seg).2 :: rest)
+            (pushWrap k (pySplit n st1.charpos seg).1 st1) (fun _ => rfl)
+          rw [pw.2.1] at ih
+          simp only [List.isEmpty_cons, Bool.false_eq_true, if_false] at ih
+          have := SegClaim.lift (st0 := st)
+            (pre := (if first || pending st.result then [] else ['\n']) ++ (pySplit n st1.charpos seg).1)
+            (by rw [pw.1, hu, List.append_assoc]) (hext.trans pw.2.2.1) (pw.2.2.2.trans hlb) ih
+          have e := pySplit_append n st1.charpos seg
+          simp only [segsText, Bool.or_true, if_true, List.nil_append, List.append_assoc] at this ⊢
+          rw [← List.append_assoc (pySplit n st1.charpos seg).1, e] at this
+          exact this
+
+theorem splitNl_isEmpty (s : List Char) : (splitNl s).isEmpty = false := by
+  cases s with
+  | nil => simp [splitNl]
+  | cons c cs =>
+    simp only [splitNl]
+    split
+    · simp
+    · split <;> simp
+
+theorem segsText_splitNl (s : List Char) :
+    segsText true false (splitNl s) = s ∧ segsText false false (splitNl s) = '\n' :: s := by
+  induction s with
+  | nil => simp [splitNl, segsText]
+  | cons c cs ih =>
+    simp only [splitNl]
+    cases h : splitNl cs with
+    | nil =>
+      have := splitNl_isEmpty cs
+      simp [h] at this
+    | cons l ls =>
+      rw [h] at ih
+      simp only [segsText, Bool.true_or, Bool.or_self, if_true, Bool.false_eq_true, if_false,
+        List.nil_append] at ih
+      by_cases hc : c = '\n'
+      · subst hc
+        simp [segsText, ih.1]
+      · simp [hc, segsText, ih.1]
+
+/-- **`_output` marks every line break it introduces**: after removing the continuation markers the
+appended items spell exactly `s`; when `_Maxlines`/`_Linebreak` is raised, a prefix of `s`. -/
+theorem output_spec (cfg : Cfg) (s : List Char) (k : OKind) (st : St) (hp : pending st.result = false) :
+    SegClaim st s false (output cfg s k st) := by
+  have h := outSegs_spec cfg k (3 * s.length + 4) true (splitNl s) st (by simp [hp])
+  rw [hp, (segsText_splitNl s).1, splitNl_isEmpty] at h
+  simpa [output] using h
+
+/-! ### the whole colourizer -/
+
+mutual
+/-- `Spells lb p t`: `t` is a complete spelling of program `p` started with `linebreakok = lb` — every
+`_output` string in order; a comma in multi-line mode is `,` + newline + some indentation; a
+`_multiline` body is spelled on one line, or (when line breaks are allowed) in multi-line mode -/
+def Spells (lb : Bool) : Prog → List Char → Prop
+  | .out s _, t => t = s
+  | .wbr, t => t = []
+  | .unknown, t => t = "??".toList
+  | .comma, t => if lb then ∃ n, t = ',' :: '\n' :: List.replicate n ' ' else t = [',', ' ']
+  | .fail _, _ => False
+  | .seq ps, t => SpellsL lb ps t
+  | .group ps, t => SpellsL lb ps t
+  | .paren p, t => ∃ u, Spells lb p u ∧ t = '(' :: (u ++ [')'])
+  | .multiline p, t => Spells false p t ∨ (lb = true ∧ Spells true p t)
+  | .ifLb a b, t => if lb then Spells true a t else Spells false b t
+def SpellsL (lb : Bool) : List Prog → List Char → Prop
+  | [], t => t = []
+  | p :: ps, t => ∃ u v, Spells lb p u ∧ SpellsL lb ps v ∧ t = u ++ v
+end
+
+mutual
+/-- without line breaks there is exactly one spelling: `flat` -/
+theorem spells_false_flat : ∀ (p : Prog) (t : List Char), Spells false p t → t = flat p
+  | .out s k, t, h => by simpa [Spells, flat] using h
+  | .wbr, t, h => by simpa [Spells, flat] using h
+  | .unknown, t, h => by simpa [Spells, flat] using h
+  | .comma, t, h => by simpa [Spells, flat] using h
+  | .fail e, t, h => by simp [Spells] at h
+  | .seq ps, t, h => by simp only [Spells] at h; simpa [flat] using spellsL_false_flat ps t h
+  | .group ps, t, h => by simp only [Spells] at h; simpa [flat] using spellsL_false_flat ps t h
+  | .paren p, t, h => by
+    simp only [Spells] at h
+    obtain ⟨u, hu, rfl⟩ := h
+    simp [flat, spells_false_flat p u hu]
+  | .multiline p, t, h => by
+    simp only [Spells] at h
+    rcases h with h | ⟨h, _⟩
+    · simpa [flat] using spells_false_flat p t h
+    · simp at h
+  | .ifLb a b, t, h => by
+    simp only [Spells, Bool.false_eq_true, if_false] at h
+    simpa [flat] using spells_false_flat b t h
+theorem spellsL_false_flat : ∀ (ps : List Prog) (t : List Char), SpellsL false ps t → t = flatList ps
+  | [], t, h => by simpa [SpellsL, flatList] using h
+  | p :: ps, t, h => by
+    simp only [SpellsL] at h
+    obtain ⟨u, v, hu, hv, rfl⟩ := h
+    simp [flatList, spells_false_flat p u hu, spellsL_false_flat ps v hv]
+end
+
+theorem restore_eq (mark st1 : St) (m : List Item) (h : st1.result = mark.result ++ m) :
+    restore mark st1 = mark ∧ st1.result.drop mark.result.length = m := by
+  simp [restore, h]
+
+/-- what running a program from `st` must satisfy -/
+def ExecClaim (st : St) (sp : List Char → Prop) (r : Res) : Prop :=
+  match r with
+  | .ok st' =>
+    pending st'.result = false ∧ st'.lbok = st.lbok ∧ Extends st st' ∧
+    ∃ t, sp t ∧ unwrap st'.result = unwrap st.result ++ t
+  | .error (_, st') => Extends st st'
+
+theorem ExecClaim.of_seg {st : St} {s : List Char} {r : Res} (h : SegClaim st s false r) :
+    ExecClaim st (fun t => t = s) r := by
+  unfold SegClaim at h; unfold ExecClaim
+  match r, h with
+  | .ok st', ⟨h1, h2, h3, h4⟩ => exact ⟨h2, h4, h3, s, rfl, h1⟩
+  | .error (e, st'), ⟨h1, _, _⟩ => exact h1
+
+def Res.andThen (r : Res) (f : St → Res) : Res :=
+  match r with
+  | .ok st1 => f st1
+  | .error e => .error e
+
+/-- sequencing two claims -/
+theorem ExecClaim.bind {st : St} {sp1 sp2 sp : List Char → Prop} {r1 : Res} {f : St → Res}
+    (h1 : ExecClaim st sp1 r1)
+    (h2 : ∀ st1, r1 = .ok st1 → pending st1.result = false → st1.lbok = st.lbok →
+      ExecClaim st1 sp2 (f st1))
+    (hsp : ∀ u v, sp1 u → sp2 v → sp (u ++ v)) :
+    ExecClaim st sp (Res.andThen r1 f) := by
+  unfold ExecClaim at h1
+  match r1, h1, h2 with
+  | .error (e, st'), h1, _ => exact h1
+  | .ok st1, ⟨hp, hlb, hext, t1, ht1, hu1⟩, h2 =>
+    have c2 := h2 st1 rfl hp hlb
+    simp only [Res.andThen]
+    unfold ExecClaim at c2 ⊢
+    match f st1, c2 with
+    | .error (e, st'), c2 => exact hext.trans c2
+    | .ok st2, ⟨hp2, hlb2, hext2, t2, ht2, hu2⟩ =>
+      exact ⟨hp2, hlb2.trans hlb, hext.trans hext2, t1 ++ t2, hsp _ _ ht1 ht2,
+        by rw [hu2, hu1, List.append_assoc]⟩
+
+/-- the final state of a run (returned or carried by the exception) extends `st` -/
+def ResExt (st : St) (r : Res) : Prop :=
+  match r with
+  | .ok st' => Extends st st'
+  | .error (_, st') => Extends st st'
+
+theorem ResExt.trans {a b : St} {r : Res} (h1 : Extends a b) (h2 : ResExt b r) : ResExt a r := by
+  unfold ResExt at h2 ⊢
+  match r, h2 with
+  | .ok st', h2 => exact h1.trans h2
+  | .error (e, st'), h2 => exact h1.trans h2
+
+theorem nlStep_extends (cfg : Cfg) (first : Bool) (st : St) : ResExt st (nlStep cfg first st) := by
+  unfold nlStep ResExt
+  cases first with
+  | true => simp [Extends.refl]
+  | false =>
+    simp only [Bool.false_eq_true, if_false]
+    by_cases h1 : exceeds (st.lineno + 1) cfg.maxlines = true
+    · simp [h1, Extends.refl]
+    by_cases h2 : (!st.lbok) = true
+    · simp [h1, h2, Extends.refl]
+    · simp only [h1, h2]
+      exact ⟨[.newline], rfl⟩
+
+/-- items are only ever appended by the wrapping loop (no assumption on the state) -/
+theorem outSegs_extends (cfg : Cfg) (k : OKind) :
+    ∀ (fuel : Nat) (first : Bool) (segs : List (List Char)) (st : St),
+      ResExt st (outSegs cfg k fuel first segs st)
+  | fuel, first, [], st => by cases fuel <;> simp [outSegs, ResExt, Extends.refl]
+  | 0, first, seg :: rest, st => by simp [outSegs, ResExt, Extends.refl]
+  | fuel + 1, first, seg :: rest, st => by
+    have hn := nlStep_extends cfg first st
+    simp only [outSegs]
+    cases hnl : nlStep cfg first st with
+    | error e => obtain ⟨e, st1⟩ := e; rw [hnl] at hn; exact hn
+    | ok st1 =>
+      rw [hnl] at hn
+      have hn' : Extends st st1 := hn
+      have fit : ResExt st (outSegs cfg k fuel false rest (pushSeg k seg st1)) :=
+        ResExt.trans (hn'.trans ⟨[mkElem k seg], rfl⟩) (outSegs_extends cfg k fuel false rest _)
+      cases hll : cfg.linelen with
+      | none => exact fit
+      | some n =>
+        simp only
+        split
+        · exact fit
+        · exact ResExt.trans (hn'.trans ⟨[mkElem k (pySplit n st1.charpos seg).1, linewrapItem], rfl⟩)
+            (outSegs_extends cfg k fuel false _ _)
+
+theorem output_extends (cfg : Cfg) (s : List Char) (k : OKind) (st : St) :
+    ResExt st (output cfg s k st) :=
+  outSegs_extends cfg k _ true _ st
+
+/-- `_OperatorDelimiter.__exit__` always leaves a state that extends the mark -/
+theorem exitParen_extends (cfg : Cfg) (mark st1 : St) (pe : Option Exc) (m : List Item)
+    (h : st1.result = mark.result ++ m) : ResExt mark (exitParen cfg mark st1 pe) := by
+  unfold exitParen
+  obtain ⟨hr, hd⟩ := restore_eq mark st1 m h
+  simp only [hr, hd]
+  have o1 := output_extends cfg ['('] .plain mark
+  cases h1 : output cfg ['('] .plain mark with
+  | error e => obtain ⟨e, st'⟩ := e; rw [h1] at o1; exact o1
+  | ok st2 =>
+    rw [h1] at o1
+    have o1' : Extends mark st2 := o1
+    simp only
+    have e2 : Extends mark { st2 with result := st2.result ++ m } := o1'.trans ⟨m, rfl⟩
+    have o2 := output_extends cfg [')'] .plain { st2 with result := st2.result ++ m }
+    cases h2 : output cfg [')'] .plain { st2 with result := st2.result ++ m } with
+    | error e => obtain ⟨e, st'⟩ := e; rw [h2] at o2; exact ResExt.trans e2 o2
+    | ok st3 =>
+      rw [h2] at o2
+      have o2' : Extends { st2 with result := st2.result ++ m } st3 := o2
+      cases pe with
+      | none => exact e2.trans o2'
+      | some e => exact e2.trans o2'
+
+/-- … and when the body completed, it wraps the body's text in parentheses -/
+theorem exitParen_ok (cfg : Cfg) (mark st1 : St) (m : List Item)
+    (h : st1.result = mark.result ++ m) (hpm : pending mark.result = false)
+    (hp1 : pending st1.result = false) :
+    ExecClaim mark (fun t => t = '(' :: (unwrapAux false m ++ [')'])) (exitParen cfg mark st1 none) := by
+  unfold exitParen
+  obtain ⟨hr, hd⟩ := restore_eq mark st1 m h
+  simp only [hr, hd]
+  have hpmm : pendingAux false m = false := by
+    have := hp1; rw [h, pending_append, hpm] at this; exact this
+  have o1 := output_spec cfg ['('] .plain mark hpm
+  cases h1 : output cfg ['('] .plain mark with
+  | error e => obtain ⟨e, st'⟩ := e; rw [h1] at o1; exact o1.1
+  | ok st2 =>
+    rw [h1] at o1
+    obtain ⟨u2, p2, e2, l2⟩ := o1
+    simp only
+    have hp3 : pending (st2.result ++ m) = false := by rw [pending_append, p2, hpmm]
+    have o2 := output_spec cfg [')'] .plain { st2 with result := st2.result ++ m } hp3
+    cases h2 : output cfg [')'] .plain { st2 with result := st2.result ++ m } with
+    | error e =>
+      obtain ⟨e, st'⟩ := e; rw [h2] at o2
+      exact (e2.trans ⟨m, rfl⟩).trans o2.1
+    | ok st3 =>
+      rw [h2] at o2
+      obtain ⟨u3, p3, e3, l3⟩ := o2
+      refine ⟨p3, l3.trans l2, (e2.trans ⟨m, rfl⟩).trans e3, _, rfl, ?_⟩
+      rw [u3]
+      simp only [unwrap_append, p2, u2]
+      simp
+
+theorem insertComma_spec (cfg : Cfg) (indent : Nat) (st : St) (hp : pending st.result = false) :
+    ExecClaim st (Spells st.lbok .comma) (insertComma cfg indent st) := by
+  unfold insertComma
+  cases hlb : st.lbok with
+  | false =>
+    simp only [Bool.false_eq_true, if_false]
+    have := ExecClaim.of_seg (output_spec cfg [',', ' '] .plain st hp)
+    simpa [Spells] using this
+  | true =>
+    simp only [if_true]
+    have o1 := output_spec cfg [','] .plain st hp
+    cases h1 : output cfg [','] .plain st with
+    | error e => obtain ⟨e, st'⟩ := e; rw [h1] at o1; exact o1.1
+    | ok st2 =>
+      rw [h1] at o1
+      obtain ⟨u2, p2, e2, l2⟩ := o1
+      simp only
+      have o2 := output_spec cfg ('\n' :: List.replicate indent ' ') .plain st2 p2
+      cases h2 : output cfg ('\n' :: List.replicate indent ' ') .plain st2 with
+      | error e => obtain ⟨e, st'⟩ := e; rw [h2] at o2; exact e2.trans o2.1
+      | ok st3 =>
+        rw [h2] at o2
+        obtain ⟨u3, p3, e3, l3⟩ := o2
+        refine ⟨p3, l3.trans l2, e2.trans e3, _, ?_, by rw [u3, u2, List.append_assoc]⟩
+        simp only [Spells, if_true]
+        exact ⟨indent, rfl⟩
+
+theorem ExecClaim.mono {st : St} {sp sp' : List Char → Prop} {r : Res} (h : ExecClaim st sp r)
+    (himp : ∀ t, sp t → sp' t) : ExecClaim st sp' r := by
+  unfold ExecClaim at h ⊢
+  match r, h with
+  | .ok st', ⟨h1, h2, h3, t, ht, hu⟩ => exact ⟨h1, h2, h3, t, himp t ht, hu⟩
+  | .error (e, st'), h => exact h
+
+theorem ExecClaim.ext {st : St} {sp : List Char → Prop} {r : Res} (h : ExecClaim st sp r) : ResExt st r := by
+  unfold ExecClaim at h; unfold ResExt
+  match r, h with
+  | .ok st', ⟨_, _, h3, _⟩ => exact h3
+  | .error (e, st'), h => exact h
+
+theorem ExecClaim.ok_intro {st st' : St} {sp : List Char → Prop} (h1 : pending st'.result = false)
+    (h2 : st'.lbok = st.lbok) (h3 : Extends st st') (t : List Char) (ht : sp t)
+    (hu : unwrap st'.result = unwrap st.result ++ t) : ExecClaim st sp (.ok st') :=
+  ⟨h1, h2, h3, t, ht, hu⟩
+
+theorem exitParen_some_error (cfg : Cfg) (mark st1 : St) (e : Exc) :
+    ∃ e' st', exitParen cfg mark st1 (some e) = .error (e', st') := by
+  unfold exitParen
+  simp only
+  cases h1 : output cfg ['('] .plain (restore mark st1) with
+  | error x => exact ⟨x.1, x.2, rfl⟩
+  | ok st2 =>
+    simp only
+    cases h2 : output cfg [')'] .plain
+        { st2 with result := st2.result ++ List.drop mark.result.length st1.result } with
+    | error x => exact ⟨x.1, x.2, rfl⟩
+    | ok st3 => exact ⟨e, st3, rfl⟩
+
+mutual
+/-- **every helper of the colourizer only ever adds marked line breaks**: running the program of an
+expression from a state without a dangling marker appends, marker pairs removed, a complete
+spelling of the program (or raises, having only appended) -/
+theorem exec_spec (cfg : Cfg) :
+    ∀ (p : Prog) (indent : Nat) (st : St), pending st.result = false →
+      ExecClaim st (Spells st.lbok p) (exec cfg indent p st)
+  | .out s k, indent, st, hp => by
+    simpa [exec, Spells] using ExecClaim.of_seg (output_spec cfg s k st hp)
+  | .wbr, indent, st, hp => by
+    simp only [exec]
+    exact ExecClaim.ok_intro (by simp [pending_append, hp, pendingAux]) rfl ⟨[.wbr], rfl⟩ []
+      (by simp [Spells]) (by simp [unwrap_append, hp, unwrapAux, Item.raw])
+  | .unknown, indent, st, hp => by
+    simp only [exec]
+    exact ExecClaim.ok_intro (by simp [pending_append, hp, pendingAux, unknownItem]) rfl
+      ⟨[unknownItem], rfl⟩ "??".toList (by simp [Spells])
+      (by simp [unwrap_append, hp, unwrapAux, Item.raw, unknownItem])
+  | .comma, indent, st, hp => by
+    simpa [exec] using insertComma_spec cfg indent st hp
+  | .fail e, indent, st, hp => by
+    simp only [exec, ExecClaim]; exact Extends.refl st
+  | .seq ps, indent, st, hp => by
+    simpa [exec, Spells] using execList_spec cfg ps indent st hp
+  | .group ps, indent, st, hp => by
+    simpa [exec, Spells] using execList_spec cfg ps st.charpos st hp
+  | .paren p, indent, st, hp => by
+    have ih := exec_spec cfg p indent st hp
+    simp only [exec]
+    cases hr : exec cfg indent p st with
+    | error e =>
+      obtain ⟨e, st1⟩ := e
+      rw [hr] at ih
+      obtain ⟨m, hm⟩ := (ih : Extends st st1)
+      have := exitParen_extends cfg st st1 (some e) m hm
+      simp only
+      obtain ⟨e', st', hx⟩ := exitParen_some_error cfg st st1 e
+      rw [hx] at this ⊢
+      exact this
+    | ok st1 =>
+      rw [hr] at ih
+      obtain ⟨hp1, hlb, ⟨m, hm⟩, t, ht, hu⟩ := ih
+      have hx := exitParen_ok cfg st st1 m hm hp hp1
+      simp only
+      refine hx.mono ?_
+      intro t' ht'
+      have : unwrapAux false m = t := by
+        have h2 := hu
+        rw [hm, unwrap_append, hp] at h2
+        exact List.append_cancel_left h2
+      simp only [Spells]
+      exact ⟨t, ht, by rw [ht', this]⟩
+  | .multiline p, indent, st, hp => by
+    have ih0 := exec_spec cfg p indent { st with lbok := false } hp
+    simp only [exec]
+    cases hr : exec cfg indent p { st with lbok := false } with
+    | ok st1 =>
+      rw [hr] at ih0
+      obtain ⟨hp1, hlb, hext, t, ht, hu⟩ := ih0
+      simp only
+      exact ExecClaim.ok_intro hp1 rfl hext t (by simp only [Spells]; exact Or.inl ht) hu
+    | error e =>
+      obtain ⟨e, st1⟩ := e
+      rw [hr] at ih0
+      have hext : Extends st st1 := ih0
+      cases e with
+      | linebreak =>
+        simp only
+        cases hlb : st.lbok with
+        | false => simp only [Bool.not_false, if_true]; exact hext
+        | true =>
+          simp only [Bool.not_true, Bool.false_eq_true, if_false]
+          obtain ⟨m, hm⟩ := hext
+          rw [(restore_eq st st1 m hm).1]
+          have ih := exec_spec cfg p indent st hp
+          rw [hlb] at ih
+          exact ih.mono (fun t ht => by simp [Spells, ht])
+      | maxlines => exact hext
+      | valueError => exact hext
+      | indexError => exact hext
+      | fuel => exact hext
+  | .ifLb a b, indent, st, hp => by
+    simp only [exec]
+    cases hlb : st.lbok with
+    | true =>
+      have ih := exec_spec cfg a indent st hp
+      rw [hlb] at ih
+      simpa [Spells] using ih
+    | false =>
+      have ih := exec_spec cfg b indent st hp
+      rw [hlb] at ih
+      simpa [Spells] using ih
+theorem execList_spec (cfg : Cfg) :
+    ∀ (ps : List Prog) (indent : Nat) (st : St), pending st.result = false →
+      ExecClaim st (SpellsL st.lbok ps) (execList cfg indent ps st)
+  | [], indent, st, hp => by
+    simp only [execList]
+    exact ExecClaim.ok_intro hp rfl (Extends.refl st) [] (by simp [SpellsL]) (by simp)
+  | p :: ps, indent, st, hp => by
+    have ih1 := exec_spec cfg p indent st hp
+    have he : execList cfg indent (p :: ps) st =
+        Res.andThen (exec cfg indent p st) (fun st1 => execList cfg indent ps st1) := by
+      simp only [execList, Res.andThen]
+      cases exec cfg indent p st <;> rfl
+    rw [he]
+    have := ExecClaim.bind (sp := SpellsL st.lbok (p :: ps)) (f := fun st1 => execList cfg indent ps st1) ih1
+      (fun st1 _ hp1 hlb1 => by
+        have := execList_spec cfg ps indent st1 hp1
+        rw [hlb1] at this
+        exact this)
+      (fun u v hu hv => by simp only [SpellsL]; exact ⟨u, v, hu, hv, rfl⟩)
+    exact this
+end
+
+/-- **Pyval.output_marked**: for every configuration and every state without a dangling marker,
+`_output(s, …)` appends items that — once each `↵` marker is removed together with the newline that
+follows it — spell exactly `s`; if it raises `_Maxlines`/`_Linebreak`, a prefix of `s`.  Every line
+break that is not in `s` is therefore marked as a continuation. -/
+theorem output_marked (cfg : Cfg) (s : List Char) (k : OKind) (st : St)
+    (hp : pending st.result = false) :
+    match output cfg s k st with
+    | .ok st' => unwrap st'.result = unwrap st.result ++ s ∧ pending st'.result = false
+    | .error (_, st') => ∃ p, p <+: s ∧ unwrap st'.result = unwrap st.result ++ p := by
+  have h := output_spec cfg s k st hp
+  unfold SegClaim at h
+  cases hr : output cfg s k st with
+  | ok st' => rw [hr] at h; exact ⟨h.1, h.2.1⟩
+  | error e => obtain ⟨e, st'⟩ := e; rw [hr] at h; exact h.2.2
+
+/-- non-vacuity / the markers at work: `12345678` at line length 4 -/
+example : (match output (Cfg.make 4 0 true) "12345678".toList .plain ⟨[], 0, 1, true⟩ with
+    | .ok st' => (st'.result.flatMap Item.raw, unwrap st'.result)
+    | .error _ => ([], [])) = ("1234↵\n5678".toList, "12345678".toList) := by decide +kernel
+
+/- Statement as first planned (FALSE): "the cut output, markers removed, is a prefix of the full
+text".  A cut inside a parenthesised operator still gets its closing parenthesis
+(`_OperatorDelimiter.__exit__` runs while the exception propagates): -/
+theorem wrap_prefix_counterexample :
+    (match colorize LT (Cfg.make 4 1 true)
+        (.binary .mult (.binary .add (.constInt 111) (.constInt 222)) (.constInt 333)) with
+      | .ok r => (r.isComplete, unwrap r.items)
+      | .error _ => (true, [])) = (false, "(111+)\n...".toList) ∧
+    render LT (.binary .mult (.binary .add (.constInt 111) (.constInt 222)) (.constInt 333))
+      = "(111+222)*333".toList := by
+  constructor <;> decide +kernel
+
+/-- **Pyval.wrap_marked**: for every line length, every line count, both `linebreakok` settings
+and every expression: if the result is not complete it ends with the `...` truncation marker (and
+`is_complete` is false by definition of the branch); if it is complete then, continuation markers
+removed, it is a complete spelling of the expression — nothing was shortened silently — and in the
+mode without line breaks (defaults, annotations, decorators, bases) it is exactly `render e`. -/
+theorem wrap_marked (T : PrecTable) (linelen maxlines : Nat) (lb : Bool) (e : Expr) (r : Colorized)
+    (h : colorize T (Cfg.make linelen maxlines lb) e = .ok r) :
+    (r.isComplete = false → r.items.getLast? = some ellipsisItem) ∧
+    (r.isComplete = true →
+      Spells lb (compile T none e) (unwrap r.items) ∧ pending r.items = false ∧
+      (lb = false → unwrap r.items = render T e)) := by
+  unfold colorize colorizeProg at h
+  simp only at h
+  have hs := exec_spec (Cfg.make linelen maxlines lb) (compile T none e) 0
+    ⟨[], 0, 1, (Cfg.make linelen maxlines lb).linebreakok⟩ (by simp [pending, pendingAux])
+  cases hr : exec (Cfg.make linelen maxlines lb) 0 (compile T none e)
+      ⟨[], 0, 1, (Cfg.make linelen maxlines lb).linebreakok⟩ with
+  | ok st =>
+    rw [hr] at h hs
+    simp only [Except.ok.injEq] at h
+    subst h
+    obtain ⟨hp, _, _, t, ht, hu⟩ := hs
+    refine ⟨by simp, fun _ => ?_⟩
+    have hu' : unwrap st.result = t := by simpa [unwrap, unwrapAux] using hu
+    have hlb : (Cfg.make linelen maxlines lb).linebreakok = lb := rfl
+    simp only [hlb] at ht
+    refine ⟨by rw [hu']; exact ht, hp, ?_⟩
+    intro hf
+    subst hf
+    rw [hu', render]
+    exact spells_false_flat _ _ ht
+  | error x =>
+    obtain ⟨x, st⟩ := x
+    rw [hr] at h
+    simp only at h
+    split at h
+    · split at h
+      · simp only [Except.ok.injEq] at h
+        subst h
+        simp
+      · split at h
+        · simp at h
+        · simp only [Except.ok.injEq] at h
+          subst h
+          simp
+    · simp at h
+
+/-- the text of a result as the reader sees it, markers included -/
+def visible (items : List Item) : List Char := items.flatMap Item.raw
+
+theorem dropPair_id (a b : Char) (s : List Char) (h : a ∉ s) : dropPair a b s = s := by
+  induction s using dropPair.induct a b with
+  | case1 => rfl
+  | case2 x => rfl
+  | case3 x y rest hxy ih => simp at h; exact absurd hxy.1 (by intro e; exact h.1 e.symm)
+  | case4 x y rest hxy ih =>
+    simp only [dropPair, hxy, if_false]
+    rw [ih (by simp at h ⊢; exact h.2)]
+
+theorem astext_id (s : List Char) (h : Char.ofNat 0 ∉ s) : astext s = s := by
+  unfold astext
+  rw [dropPair_id _ _ s h, dropPair_id _ _ s h]
+  rw [List.filter_eq_self]
+  intro c hc
+  simp only [ne_eq, decide_eq_true_eq]
+  intro e; subst e; exact h hc
+
+/-- **Pyval.display_eq_render**: what `gettext(to_node())` returns is the raw item text, provided no
+item holds a NUL character (docutils' `Text.astext` removes them) -/
+theorem display_eq_render (items : List Item) (h : ∀ it ∈ items, Char.ofNat 0 ∉ it.raw) :
+    itemsText items = visible items := by
+  unfold itemsText visible
+  induction items with
+  | nil => rfl
+  | cons it rest ih =>
+    simp only [List.flatMap_cons]
+    rw [ih (fun x hx => h x (by simp [hx]))]
+    congr 1
+    have := h it (by simp)
+    cases it with
+    | text s => exact astext_id s this
+    | elem k s => exact astext_id s this
+    | wbr => rfl
+    | newline => rfl
+
+/-- `'\x00'` is displayed as `''`: the NUL is handed to `_output` (it is in `render`) and dropped by
+docutils when the text is extracted -/
+theorem nul_dropped_counterexample :
+    (match colorize LT (Cfg.make 0 1 false) (.constStr [Char.ofNat 0]) with
+      | .ok r => (r.isComplete, itemsText r.items)
+      | .error _ => (false, [])) = (true, "''".toList) ∧
+    render LT (.constStr [Char.ofNat 0]) = ['\'', Char.ofNat 0, '\''] := by
+  constructor <;> decide +kernel
+
+
 end Pyval
